@@ -45,6 +45,7 @@ type Input struct {
 	T    *Term // scalar var, or length var for bytes/string
 	Arr  *Term
 	Max  int
+	Bs   []*Term // fixed-length content as separate byte variables (verifStringN / verifBytesN): pure bit-vector queries
 }
 
 type InputVal struct {
@@ -321,6 +322,16 @@ func (p *Path) newInputScalar(kind string, w int) *Term {
 	return t
 }
 
+// newInputFixed: n fresh byte variables (content of a fixed-length string / byte slice input)
+func (p *Path) newInputFixed(kind string, n int) []*Term {
+	bs := make([]*Term, n)
+	for i := range bs {
+		bs[i] = p.fresh("in_b", 8)
+	}
+	p.inputs = append(p.inputs, Input{Kind: kind, Name: fmt.Sprintf("fixed!%d", p.nvar), T: p.st.BV(64, uint64(n)), Bs: bs})
+	return bs
+}
+
 func (p *Path) newInputBytes(kind string, max int) (arr, n *Term) {
 	p.nvar++
 	arr = p.st.Arr(fmt.Sprintf("in_arr!%d", p.nvar))
@@ -347,7 +358,16 @@ func (p *Path) model() ([]InputVal, *Model, error) {
 	var refs []selRef
 	for i, in := range p.inputs {
 		out[i] = InputVal{Kind: in.Kind, Name: in.Name, U: vals[i]}
-		m.Vars[in.T.Name] = vals[i]
+		if in.T.Op == OpVar {
+			m.Vars[in.T.Name] = vals[i]
+		}
+		if in.Bs != nil || (in.Arr == nil && (in.Kind == "string" || in.Kind == "bytes")) {
+			out[i].Bytes = make([]byte, len(in.Bs))
+			for j, b := range in.Bs {
+				sel = append(sel, b)
+				refs = append(refs, selRef{i, j})
+			}
+		}
 		if in.Arr != nil {
 			n := int(vals[i])
 			if vals[i] > uint64(in.Max) {
@@ -371,6 +391,10 @@ func (p *Path) model() ([]InputVal, *Model, error) {
 		}
 		for k, r := range refs {
 			out[r.in].Bytes[r.j] = byte(sv[k])
+			if p.inputs[r.in].Arr == nil {
+				m.Vars[p.inputs[r.in].Bs[r.j].Name] = sv[k]
+				continue
+			}
 			name := p.inputs[r.in].Arr.Name
 			if m.Arrs[name] == nil {
 				m.Arrs[name] = map[uint64]uint8{}
